@@ -496,7 +496,134 @@ def run_config(ctx, cfg, tus, tag):
     return check_init(ctx, cfg, tus, tag, G, GT)
 
 
+PF_DRIVER = 'drivers/c01_parallel.cpp'
+INIT_FILE = 'rkcommon/tasking/detail/tasking_system_init.cpp'
+
+
+def check_who_may_set(ctx, tus):
+    """R-C13-6: the limit installed by initTaskingSystem is the only source of the team size: no OpenMP directive in rkcommon
+    carries a num_threads clause (it would override omp_set_num_threads), and nobody outside tasking_system_init.cpp calls
+    omp_set_num_threads / creates a tbb::global_control / creates a tbb::task_arena with an explicit concurrency."""
+    R6 = 'R-C13-6'
+    n = 0
+    seen = set()
+    for tu, tag in tus:
+        for f in tu.functions.values():
+            if f['dep'] or tu.cfg(f) is None or not tu.fn_file(f).startswith('rkcommon/'):
+                continue
+            if tu.fn_file(f).startswith('rkcommon/tasking/detail/enkiTS'):
+                continue
+            fname = re.sub(r'<.*', '', f['q'])
+            body = tu.body(f)
+            # a construction inside the generic make_unique helper is attributed to the functions that call that instantiation
+            site_files = [tu.fn_file(f)]
+            if fname.endswith('::make_unique'):
+                site_files = sorted({tu.fn_file(c) for c in tu.functions.values() if not c['dep'] and tu.body(c) is not None
+                                     and any(tu.sd(y).get('d') == f['id'] or tu.sd(y).get('def') == f['id'] for y in tu.walk(tu.body(c)))}) or site_files
+            outside = any(sf != INIT_FILE for sf in site_files)
+            for x in (tu.walk(body) if body is not None else ()):
+                if not x.get('id'):
+                    continue
+                sd = tu.sd(x)
+                site = None
+                if sd.get('k') == 'omp':
+                    site = ('omp-directive', 'num_threads' in sd.get('clauses', []),
+                            'the OpenMP directive `#pragma omp %s` carries a num_threads clause: it overrides the limit set by '
+                            'initTaskingSystem (omp_set_num_threads), so parallel_for can run on more threads than configured'
+                            % sd.get('directive'), 'omp-num_threads-clause')
+                elif x.get('kind') in ('CallExpr',) and sd.get('q') in ('omp_set_num_threads', 'omp_set_dynamic', 'omp_set_nested',
+                                                                         'omp_set_max_active_levels'):
+                    site = ('omp-setter', outside,
+                            '%s() is called outside %s: the configured thread limit is changed behind initTaskingSystem' % (sd.get('q'), INIT_FILE),
+                            'thread-count-set-elsewhere')
+                elif x.get('kind') in ('CXXConstructExpr', 'CXXTemporaryObjectExpr') and re.search(r'tbb::(detail::\w+::)?global_control::global_control', sd.get('q', '')):
+                    site = ('tbb-global_control', outside,
+                            'a tbb::global_control is created outside %s: a second source for the TBB parallelism limit' % INIT_FILE,
+                            'thread-count-set-elsewhere')
+                elif x.get('kind') in ('CXXConstructExpr', 'CXXTemporaryObjectExpr') and re.search(r'tbb::(detail::\w+::)?task_arena::task_arena', sd.get('q', '')):
+                    args = [a for a in tu.kids(x) if a.get('kind') != 'CXXDefaultArgExpr']
+                    a0 = tu.sd(tu.strip(args[0], casts=True)).get('ct', '') if args else ''
+                    explicit = bool(args) and ('attach' not in a0) and ('task_arena' not in a0)
+                    site = ('tbb-task_arena', explicit,
+                            'a tbb::task_arena with an explicit concurrency is created: work submitted through it is not bound by the '
+                            'configured limit', 'explicit-arena-concurrency')
+                if site is None:
+                    continue
+                kind, bad, why, detail = site
+                key = (tag, f['q'], f['fty'], kind, tu.loc(x))
+                if key in seen:
+                    continue
+                seen.add(key)
+                n += 1
+                inst = '%s in %s %s [%s]' % (kind, f['q'].replace('rkcommon::tasking::', ''), f['fty'][:60], tag)
+                if bad:
+                    ctx.violation(R6, inst, why, tu.loc(x), key='%s|%s|%s|%s' % (R6, tu.fn_file(f), fname.replace('rkcommon::tasking::', ''), detail))
+                else:
+                    ctx.ok(R6, inst, 'does not override the configured limit', tu.loc(x))
+    ctx.floor(R6, n, 10, 'OpenMP directives of the 8 parallel_for instantiations + the limit sites in tasking_system_init.cpp + the attached arena in schedule')
+
+
+def check_no_gap(ctx, tu, tag):
+    """R-C13-7: re-initialisation never leaves a window without a limit: on no path of initTaskingSystem is the global handle
+    emptied (reset() / release() / = nullptr) before the new handle has been constructed (unique_ptr assignment and reset(p)
+    construct the new object first and destroy the old one afterwards, so the two limits overlap)."""
+    R7 = 'R-C13-7'
+    fs = tu.fns(q='rkcommon::tasking::initTaskingSystem')
+    if len(fs) != 1 or tu.cfg(fs[0]) is None:
+        ctx.broken('%s: initTaskingSystem not found [%s]' % (R7, tag))
+        return 0
+    f = fs[0]
+    g = tu.cfg(f)
+
+    def is_global_handle(e):
+        e = tu.strip(e, casts=True)
+        return e is not None and e.get('kind') == 'DeclRefExpr' and 'g_tasking_handle' in tu.sd(e).get('q', '') or \
+            (e is not None and e.get('kind') == 'DeclRefExpr' and 'unique_ptr<rkcommon::tasking::tasking_system_handle' in tu.sd(e).get('ct', '')
+             and e.get('referencedDecl', {}).get('kind') == 'VarDecl')
+
+    found = []
+
+    def transfer(blk, i, el, st):
+        if el[0] != 'S':
+            return [st]
+        x = tu.node(el[1])
+        if x is None:
+            return [st]
+        k = x.get('kind')
+        sd = tu.sd(x)
+        if k in ('CXXMemberCallExpr', 'CXXOperatorCallExpr'):
+            s_, obj, args = tu.call_parts(x)
+            name = sd.get('q', '').split('::')[-1]
+            args = [a for a in args if a.get('kind') != 'CXXDefaultArgExpr']
+            if obj is not None and is_global_handle(obj):
+                empties = (name == 'release') or (name == 'reset' and (not args or tu.strip(args[0], casts=True).get('kind') == 'CXXNullPtrLiteralExpr')) \
+                    or (name == 'operator=' and args and tu.strip(args[0], casts=True).get('kind') == 'CXXNullPtrLiteralExpr')
+                if empties:
+                    return [x['id']]
+        creates = (k == 'CXXNewExpr' and 'tasking_system_handle' in sd.get('aty', '')) or \
+                  (k == 'CallExpr' and 'make_unique' in sd.get('q', '') and 'tasking_system_handle' in sd.get('ct', ''))
+        if creates and st is not None:
+            found.append((x, st))
+        return [st]
+
+    g.explore([None], transfer)
+    inst = 'initTaskingSystem [%s]' % tag
+    if found:
+        x, eid = found[0]
+        e = tu.node(eid)
+        ctx.violation(R7, inst, 'the installed handle is emptied by `%s` (%s) before the new handle is constructed at %s: between the two the '
+                      'backend runs without the configured limit, so a parallel_for in flight on another thread is joined by all hardware threads'
+                      % (tu.show(e), tu.loc(e), tu.loc(x)), tu.loc(e), key='%s|%s|initTaskingSystem|handle-gap' % (R7, INIT_FILE),
+                      path=['%s: %s' % (tu.loc(e), tu.show(e)), '%s: %s' % (tu.loc(x), tu.show(x))])
+    else:
+        ctx.ok(R7, inst, 'the new handle is constructed before the old one is released on every path', tu.fn_loc(f))
+    return 1
+
+
 def run(ctx):
+    ctx.describe('R-C13-6', 'the limit installed by initTaskingSystem is the only source of the team size (no num_threads clause, no other '
+                            'caller of the limit APIs, no arena with explicit concurrency)')
+    ctx.describe('R-C13-7', 'initTaskingSystem never empties the installed handle before the new one is constructed (no window without a limit)')
     ctx.describe('R-C13-1', 'n > 0 reaches the backend limit API as itself; n <= 0 leaves the default or passes a hardware-derived '
                             'count; the object carrying the limit is owned by the installed handle / is the queried scheduler')
     ctx.describe('R-C13-2', 'numTaskingThreads with an initialised handle returns the getter paired with the limit API')
@@ -528,6 +655,12 @@ def run(ctx):
                 group += [tus[base + 4], tus[base + 5]]
             n1 += run_config(ctx, cfg, group, cfg + vt)
         n5 += check_enki(ctx, tus[base + 5], 'INTERNAL' + vt)
+    pf = ctx.front.parse_many([dict(unit=PF_DRIVER, config=c) for c in ('OMP', 'TBB')])
+    check_who_may_set(ctx, [(pf[0], 'OMP'), (pf[1], 'TBB'), (tus[0], 'TBB lib'), (tus[1], 'OMP lib')])
+    n7 = 0
+    for ci, cfg in enumerate(('TBB', 'OMP', 'INTERNAL', 'DEBUG')):
+        n7 += check_no_gap(ctx, tus[ci], cfg)
+    ctx.floor('R-C13-7', n7, 4, 'initTaskingSystem under the 4 backends')
     ctx.floor('R-C13-1', n1, 7 * len(variants), 'paths x backends: TBB 2, OMP 2, INTERNAL 2, DEBUG 1 per variant')
     ctx.floor('R-C13-5', n5, 3 * len(variants), 'getter, Initialize, one thread-creation site per variant')
     ctx.note('not decided (declared): the number of threads simultaneously inside parallel_for bodies is a runtime quantity of the '
